@@ -7,6 +7,24 @@ use chrono::NaiveDate;
 
 use crate::model::q::Q;
 
+/// Decides how a canonical account / commodity name is written at one occurrence (used to
+/// substitute declared aliases without touching the semantic model).
+pub trait Namer {
+    fn account(&mut self, canonical: &str) -> String;
+    fn commodity(&mut self, canonical: &str) -> String;
+}
+
+pub struct Identity;
+
+impl Namer for Identity {
+    fn account(&mut self, canonical: &str) -> String {
+        canonical.to_string()
+    }
+    fn commodity(&mut self, canonical: &str) -> String {
+        canonical.to_string()
+    }
+}
+
 /// A numeric literal as written.
 #[derive(Clone, Debug, PartialEq)]
 pub struct Dec {
@@ -80,10 +98,13 @@ impl Amt {
         }
     }
     pub fn text(&self) -> String {
+        self.text_named(&mut Identity)
+    }
+    pub fn text_named(&self, namer: &mut dyn Namer) -> String {
         if self.commodity.is_empty() {
             self.num.text()
         } else {
-            format!("{} {}", self.num.text(), self.commodity)
+            format!("{} {}", self.num.text(), namer.commodity(&self.commodity))
         }
     }
 }
@@ -102,6 +123,26 @@ impl AmountExpr {
         match self {
             AmountExpr::Lit(a) => a.text(),
             AmountExpr::Expr { text, .. } => text.clone(),
+        }
+    }
+    pub fn text_named(&self, namer: &mut dyn Namer) -> String {
+        match self {
+            AmountExpr::Lit(a) => a.text_named(namer),
+            AmountExpr::Expr { text, commodity, .. } => {
+                if commodity.is_empty() {
+                    return text.clone();
+                }
+                // every occurrence of the commodity token inside the expression text
+                let mut out = String::new();
+                let mut rest = text.as_str();
+                while let Some(p) = rest.find(commodity.as_str()) {
+                    out.push_str(&rest[..p]);
+                    out.push_str(&namer.commodity(commodity));
+                    rest = &rest[p + commodity.len()..];
+                }
+                out.push_str(rest);
+                out
+            }
         }
     }
     pub fn value(&self) -> Q {
@@ -168,25 +209,28 @@ impl Post {
         self.amount.is_none() && self.assertion.is_some()
     }
     pub fn text(&self) -> String {
-        let mut s = format!("    {}", self.account);
+        self.text_named(&mut Identity)
+    }
+    pub fn text_named(&self, namer: &mut dyn Namer) -> String {
+        let mut s = format!("    {}", namer.account(&self.account));
         if let Some(a) = &self.amount {
             s.push_str("    ");
-            s.push_str(&a.text());
+            s.push_str(&a.text_named(namer));
             if let Some(l) = &self.lot {
                 match l {
-                    Price::Rate(a) => s.push_str(&format!(" {{{}}}", a.text())),
-                    Price::Total(a) => s.push_str(&format!(" {{{{{}}}}}", a.text())),
+                    Price::Rate(a) => s.push_str(&format!(" {{{}}}", a.text_named(namer))),
+                    Price::Total(a) => s.push_str(&format!(" {{{{{}}}}}", a.text_named(namer))),
                 }
             }
             if let Some(c) = &self.cost {
                 match c {
-                    Price::Rate(a) => s.push_str(&format!(" @ {}", a.text())),
-                    Price::Total(a) => s.push_str(&format!(" @@ {}", a.text())),
+                    Price::Rate(a) => s.push_str(&format!(" @ {}", a.text_named(namer))),
+                    Price::Total(a) => s.push_str(&format!(" @@ {}", a.text_named(namer))),
                 }
             }
         }
         if let Some(b) = &self.assertion {
-            s.push_str(&format!("    = {}", b.text()));
+            s.push_str(&format!("    = {}", b.text_named(namer)));
         }
         s
     }
@@ -233,6 +277,10 @@ pub struct Rendered {
 }
 
 pub fn entry_text(e: &Entry) -> (String, Vec<usize>) {
+    entry_text_named(e, &mut Identity)
+}
+
+pub fn entry_text_named(e: &Entry, namer: &mut dyn Namer) -> (String, Vec<usize>) {
     // returns text (newline terminated) and posting line offsets (0-based within the entry)
     match e {
         Entry::Txn(t) => {
@@ -240,7 +288,7 @@ pub fn entry_text(e: &Entry) -> (String, Vec<usize>) {
             let mut lines = Vec::new();
             for (i, p) in t.posts.iter().enumerate() {
                 lines.push(1 + i);
-                s.push_str(&p.text());
+                s.push_str(&p.text_named(namer));
                 s.push('\n');
             }
             (s, lines)
@@ -277,10 +325,16 @@ pub fn entry_text(e: &Entry) -> (String, Vec<usize>) {
 
 impl Ledger {
     pub fn render(&self) -> Rendered {
+        self.render_named(&mut Identity)
+    }
+
+    /// Renders with `namer` choosing the spelling of every account / commodity occurrence inside
+    /// transactions (declarations always use the canonical name and list their aliases).
+    pub fn render_named(&self, namer: &mut dyn Namer) -> Rendered {
         let mut out = Rendered::default();
         let mut line = 1usize;
         for e in &self.entries {
-            let (t, posts) = entry_text(e);
+            let (t, posts) = entry_text_named(e, namer);
             let nlines = t.matches('\n').count();
             out.entry_lines.push((line, line + nlines.saturating_sub(1)));
             out.post_lines.push(posts.iter().map(|o| line + o).collect());
